@@ -71,6 +71,70 @@ def merged_assign_minus(sq, kind_of):
     return [o[0] for o in out]
 
 
+def _norm(x):
+    return "".join(x.replace("/*c*/", "").split())
+
+
+def explain(sq, wantk, sts, errs, cname, text):
+    """the set of recorded defects that explain EVERY difference between the statements parsed alone and the
+    statements of the concatenation; empty if some difference is not explained (then it is a violation).
+    Differences: two adjacent statements merged into one, a kind that differs, a diagnostic."""
+    guards = set()
+    want = [_norm(x) for x in sq]
+    got = [(_norm(t), k) for k, t in sts]
+    i = j = 0
+    merged_cast_top = False
+    while i < len(want) and j < len(got):
+        gt, gk = got[j]
+        if gt == want[i]:
+            if gk != wantk[i]:
+                # F09b: `let` is an ALIAS_DECLARATION_STATEMENT under `item` and a LET_STMT under `stmt`
+                if {gk, wantk[i]} == {"LET_STMT", "ALIAS_DECLARATION_STATEMENT"} and sq[i].lstrip().startswith("let"):
+                    guards.add("let")
+                elif ({gk, wantk[i]} == {"EXPR_STMT", "BLOCK_EXPR"} and sq[i].lstrip().startswith("{") and i == len(want) - 1
+                      and cname != "file"):
+                    guards.add("block_tail")         # F09f: a scope that ends a block is a bare tail expression
+                elif sq[i].strip() == ";" and cname == "file" and errs:
+                    pass      # F09a: the rejected `;` is wrapped in an ERROR node; its diagnostic is checked below
+                else:
+                    return set()
+            i += 1; j += 1
+        elif i + 1 < len(want) and gt == want[i] + want[i + 1]:
+            a, b = sq[i], sq[i + 1]
+            if b.lstrip().startswith("-") and merged_assign_minus([a, b], {a: wantk[i], b: wantk[i + 1]}) == [gt]:
+                guards.add("assign_then_minus")                       # F09e
+            elif wantk[i] == "EXPR_STMT" and a.rstrip().endswith("}") and b.strip() == ";":
+                guards.add("block_then_semicolon")                    # F09d
+            elif wantk[i] == "CAST_EXPRESSION" and b.strip() == ";":
+                guards.add("cast_stmt_no_semicolon")                  # F09c
+            else:
+                return set()
+            i += 2; j += 1
+        else:
+            return set()
+    if i != len(want) or j != len(got):
+        return set()
+    if errs:
+        # F09a / F09c at file level: a `;` statement after an item is reported; every diagnostic must sit on the
+        # start of an empty statement of the sequence
+        if cname != "file":
+            return set()
+        starts, pos = set(), 0
+        b = text
+        for x in sq:
+            k = b.find(x.strip(), pos)
+            if k < 0:
+                return set()
+            if x.strip() == ";":
+                starts.add(len(b[:k].encode("utf-8")))
+            pos = k + len(x.strip())
+        epos = {int(e.split("-")[0]) for e in PL.err_positions(errs)}
+        if not epos <= starts:
+            return set()
+        guards.add("empty_stmt_top")
+    return guards
+
+
 def check(ctx):
     C.extract(ctx)
     C.prove(ctx, ["Oq3.Props.C16"] if C.os.path.exists(C.os.path.join(C.LEAN, "Oq3/Props/C16.lean")) else ["Oq3.Props.C01"])
@@ -142,6 +206,7 @@ def check(ctx):
     model = C.run_model(ctx, ["tree", ucpath], [G.enc(t) for t in texts], tag="ms") if have_model else [None] * len(cases)
     failures, ndis, nontriv = [], 0, 0
     for (sq, cname, text), t, m in zip(cases, impl, model):
+        same = True
         if have_model:
             pa, pb = PL.canon_panic(t), PL.canon_panic(m)
             same = (pa == pb) if (pa or pb) else (PL.fields(t).get("tree") == PL.fields(m).get("tree"))
@@ -157,21 +222,13 @@ def check(ctx):
             sts, errs = block_statements(t, text, cname)
         want = [x.strip() for x in sq]
         got = [x[1].strip() for x in (sts or [])]
-        if errs != "" or got != want:
-            guards = set()
-            if any(x.startswith("let ") for x in sq):
-                guards.add("let")
-            if ";" in want and cname == "file":
-                guards.add("empty_stmt_top")
-            if any(kind_of.get(a) == "EXPR_STMT" and a.strip().endswith("}") and b.strip() == ";" for a, b in zip(sq, sq[1:])):
-                guards.add("block_then_semicolon")
-            if any(kind_of.get(x) == "CAST_EXPRESSION" for x in sq):
-                guards.add("cast_stmt_no_semicolon")
-            if errs == "" and merged_assign_minus(sq, kind_of) == ["".join(g.replace("/*c*/", "").split()) for g in got]:
-                guards.add("assign_then_minus")
+        wantk = [kind_of.get(x) for x in sq]
+        gotk = [x[0] for x in (sts or [])]
+        if errs != "" or got != want or gotk != wantk:
+            guards = explain(sq, wantk, sts or [], errs, cname, text)
             failures.append({"case": G.enc(text), "check": "compositional",
                              "detail": {"text": text, "context": cname, "expected": want, "got": got, "diagnostics": errs[:200]},
-                             "guards": guards, "model_agrees": True,
+                             "guards": guards, "model_agrees": same,
                              "replay_how": "echo '<input>' | /verif/harness/target/debug/oq3-run tree"})
         else:
             nontriv += 1
